@@ -58,6 +58,11 @@ def files():
     # reserved words as path variable and as body field (the generator rewrites both to the python attribute names)
     G.add_message(fd, "KindRequest", [G.F("type", 1, T.TYPE_STRING), G.F("format", 2, T.TYPE_MESSAGE, type_name=P + ".Inner"), G.F("note", 3, T.TYPE_STRING)])
     m("ByKind", P + ".KindRequest", P + ".Thing", http=("post", "/v1/{type=kinds/*}/things"), body="format")
+    # ... and one whose template contains the variable's own (reserved) name as a substring
+    m("ByType", P + ".KindRequest", P + ".Thing", http=("get", "/v1/{type=types/*/subtypes/*}/things"))
+    # a REQUIRED reserved-word field as the path variable
+    G.add_message(fd, "ReqKindRequest", [G.F("type", 1, T.TYPE_STRING, **R), G.F("note", 2, T.TYPE_STRING)])
+    m("ByReqType", P + ".ReqKindRequest", P + ".Thing", http=("get", "/v1/{type=rtypes/*}"))
     # DELETE bindings with a body (field / *)
     G.add_message(fd, "PurgeRequest", [G.F("name", 1, T.TYPE_STRING), G.F("criteria", 2, T.TYPE_MESSAGE, type_name=P + ".Inner"), G.F("dry_run", 3, T.TYPE_BOOL)])
     m("PurgeThing", P + ".PurgeRequest", P + ".Thing", http=("delete", "/v1/{name=things/*}:purge"), body="criteria")
@@ -183,6 +188,8 @@ REQUESTS = {
     "WipeThings": [{"name": "things/t1", "criteria": {"id": "old"}, "dry_run": True}],
     "ListIn": [{"parent": "shelves/s1"}, {"parent": "shelves/s1", "zone": "z", "rack": 2, "recursive": True},
                {"parent": "buildings/b1", "zone": "z1", "rack": 4}],
+    "ByType": [{"type": "types/t1/subtypes/s2", "note": "n"}],
+    "ByReqType": [{"type": "rtypes/r1", "note": "n"}, {"type": "rtypes/r2"}],
     "ByKind": [{"type": "kinds/k1", "format": {"id": "f", "level": 2}, "note": "n"}, {"type": "kinds/k2"}],
 }
 
@@ -311,7 +318,13 @@ def check_call(call, binds, want, req_cls, numeric):
         except Exception as e:      # noqa
             out.append({"what": "path variable does not name a request field", "variable": v, "error": repr(e)[:100]})
         sources[v] = "path"
-    params = [(k, v) for k, v in call["params"]]
+    params = []
+    for k, v in call["params"]:
+        if not isinstance(v, str):
+            # query values are handed to the HTTP library as text in the proto3 JSON spelling (true/false, not True/False)
+            out.append({"what": "a query parameter value is not text in the JSON spelling", "key": k, "value": repr(v)})
+            v = str(v)
+        params.append((k, v))
     alt = [v for k, v in params if k == "$alt"]
     params = [(k, v) for k, v in params if k != "$alt"]
     if numeric != (alt == ["json;enum-encoding=int"]) or (not numeric and alt):
